@@ -339,6 +339,58 @@ def q2dedup(ctx):
                             h = c_.holds_on(s_)
                             if v == {"ExactlyOnce"} and h is not None and (h ^ bool(c_.neg)):
                                 only2 = True
+                if not only2:
+                    # the decision may have been taken earlier and carried in an Option (`id.filter(|_| qos == ExactlyOnce)`,
+                    # tested later): the recording hangs on that Option being Some, and every place that makes it Some
+                    # hangs on QoS == ExactlyOnce
+                    def _q2(bb_):
+                        for (d2, s2) in hp.control_dep_closure(bb_):
+                            si2 = hp.switch_info(d2)
+                            if si2 and si2["kind"] == "discr" and (si2.get("adt") or "").endswith("QoS"):
+                                nm2 = {si2["variants"].get(v) for v in hp.edge_value(d2, s2) if v != "otherwise"}
+                                if "otherwise" in hp.edge_value(d2, s2):
+                                    nm2 |= set(si2["variants"].values()) - {si2["variants"].get(v) for v, _ in si2["targets"]}
+                                if nm2 == {"ExactlyOnce"}:
+                                    return True
+                            else:
+                                c2 = _C(hp, d2)
+                                if c2.kind == "call" and c2.callee == "eq":
+                                    at2 = set()
+                                    for x in c2.args:
+                                        at2 |= hp.atoms(x)
+                                    v2 = {y[2] for y in at2 if y[0] == "variant" and (y[1] or "").endswith("QoS")}
+                                    h2 = c2.holds_on(s2)
+                                    if v2 == {"ExactlyOnce"} and h2 is not None and (h2 ^ bool(c2.neg)):
+                                        return True
+                        return False
+                    from cond import Cond as _C
+                    for (d, s_) in hp.control_dep_closure(a_.inner_bb if not a_.via else a_.bb):
+                        si = hp.switch_info(d)
+                        if not si or si["kind"] != "discr" or si.get("adt") != "std::option::Option" or 1 not in hp.edge_value(d, s_):
+                            continue
+                        cur = si["place"]
+                        for _ in range(8):
+                            ds_ = hp.whole_defs(cur["l"])
+                            if len(ds_) != 1 or ds_[0][0] != "stmt":
+                                break
+                            rv_ = ds_[0][3]["rv"]
+                            if cur["p"] and isinstance(cur["p"][0], dict) and "f" in cur["p"][0] and rv_["k"] == "agg" and len(rv_["ops"]) > cur["p"][0]["f"] \
+                                    and rv_["ops"][cur["p"][0]["f"]].get("k") in ("move", "copy"):
+                                nx = rv_["ops"][cur["p"][0]["f"]]["pl"]
+                                cur = {"l": nx["l"], "p": list(nx["p"]) + list(cur["p"][1:])}
+                                continue
+                            if not cur["p"] and rv_["k"] == "use" and rv_["op"].get("k") in ("move", "copy"):
+                                cur = rv_["op"]["pl"]
+                                continue
+                            break
+                        o_ = ("place", cur)
+                        if o_[1]["p"]:
+                            continue
+                        somes = [x for x in hp.whole_defs(o_[1]["l"]) if x[0] == "stmt" and x[3]["rv"]["k"] == "agg" and x[3]["rv"].get("variant") == "Some"]
+                        others = [x for x in hp.whole_defs(o_[1]["l"]) if not (x[0] == "stmt" and x[3]["rv"]["k"] == "agg" and x[3]["rv"].get("variant") in ("Some", "None"))]
+                        if somes and not others and all(_q2(x[1]) for x in somes):
+                            only2 = True
+                            seen_q.append("carried in an Option made Some under QoS == ExactlyOnce only")
                 out.append(Inst("Q2DEDUP", "record-only-qos2", only2, a_.site(),
                                 "the identifier is recorded %s" % ("only on the QoS 2 edge" if only2 else "without a dominating QoS == ExactlyOnce decision (QoS decisions seen: %s)" % (seen_q or "none")),
                                 "only identifiers that a PUBREL will release are remembered"))
